@@ -101,6 +101,10 @@ type c05F struct {
 	paths *c05Paths // what exists on disk (for drag histories)
 	toks  []string  // the event list for the model, when the history is model-comparable
 	trig  []byte    // the last raw chunk with a trigger that a real trz/tsz child printed
+	// the chunks fed around the client's own ctrl-C, what the terminal showed of them, transfers started (c05e.go)
+	winChunks, winShown [][]byte
+	winActs             int
+	winOK               bool
 }
 
 func c05New(o trzsz.TrzszOptions) *c05F {
@@ -1432,6 +1436,8 @@ func genC05History(c *ctx) {
 		opts                trzsz.TrzszOptions
 		args                []string // the model line (model-comparable histories)
 		result              string
+		winArgs             []string // the model line of the interrupt window (c05_window)
+		winRes              string
 	}
 	var jobs []*job
 	for r := 0; r < reps; r++ {
@@ -1501,6 +1507,10 @@ func genC05History(c *ctx) {
 		} else {
 			j.after = x.probe(rng, o, 24)
 		}
+		if x.winOK {
+			j.winArgs = []string{"0", hxs(x.winChunks)}
+			j.winRes = fmt.Sprintf("%s|%d", hxs(x.winShown), x.winActs)
+		}
 		x.close()
 	}
 	parallelDo(len(jobs), 24, func(i int) { runJob(jobs[i]) })
@@ -1514,6 +1524,9 @@ func genC05History(c *ctx) {
 		c.count("history:" + j.h.name)
 		if j.args != nil {
 			c.emit(true, "c05_run", j.result, j.args...)
+		}
+		if j.winArgs != nil {
+			c.emit(true, "c05_window", j.winRes, j.winArgs...)
 		}
 		if j.before != "" {
 			c.violate("probe-before:"+j.h.name, "a fresh wrapper did not pass a probe through", fmt.Sprintf("options=%04b seed=%d: %s", j.oi, j.seed, j.before))
